@@ -16,6 +16,7 @@ const TraceAvailable = true
 var exemptFuncs = map[string]bool{"isReduced": true}
 
 func traceOf(op *ctOp, in *ctInputs) []verifct.Event {
+	in.EnsureOuts()
 	verifct.Reset()
 	verifct.Mode = 1
 	op.run(in)
@@ -107,6 +108,10 @@ func diverge(a, b []verifct.Event) []divergence {
 
 // C03 (source level): leakage traces of two runs with different secrets must be identical.
 func C03(c *Ctx) {
+	if c.Mode == "emit-images" {
+		c03Emit(c)
+		return
+	}
 	ops := CTOps()
 	nper := c.N(64, 2000)
 	// warm-up: lazily built tables and one pass over every operation, outside any trace
@@ -115,6 +120,7 @@ func C03(c *Ctx) {
 	refTr := make([][]verifct.Event, len(ops))
 	for oi := range ops {
 		refIn[oi] = ops[oi].gen(gen.New(c.Seed, propStream(c.Prop), 1<<40+uint64(oi)), 0)
+		refIn[oi].EnsureOuts()
 		ops[oi].run(&refIn[oi])
 		refTr[oi] = traceOf(&ops[oi], &refIn[oi])
 		// determinism of the tracer itself: same input, same trace
@@ -145,23 +151,23 @@ func C03(c *Ctx) {
 		op := &ops[oi]
 		in := op.gen(r, k)
 		tr := traceOf(op, &in)
-		c.Eval(true, []byte(op.name), []byte(fmt.Sprint(k)), []byte(in.class), in.bytes)
+		c.Eval(true, []byte(op.name), []byte(fmt.Sprint(k)), []byte(in.Class), in.Bytes)
 		c.Tally("op:" + op.name)
 		c.TallyN("events compared", int64(len(tr)))
 		if hasZeroXLimbs(&in) {
 			c.Tally("assignments in the K1 witness class (a point input with all-zero X limbs)")
 		}
 		if traceHash(tr) == traceHash(refTr[oi]) && len(tr) == len(refTr[oi]) {
-			c.Sample(op.name, map[string]any{"op": op.name, "assignment": k, "class": in.class, "events": len(tr), "trace-hash": fmt.Sprintf("%016x", traceHash(tr)), "identical-to-reference-assignment": true})
+			c.Sample(op.name, map[string]any{"op": op.name, "assignment": k, "class": in.Class, "events": len(tr), "trace-hash": fmt.Sprintf("%016x", traceHash(tr)), "identical-to-reference-assignment": true})
 			continue
 		}
-		class := in.class
+		class := in.Class
 		if hasZeroXLimbs(&in) != hasZeroXLimbs(&refIn[oi]) {
 			class = "point-input-with-all-zero-X-limbs"
 		}
 		for _, d := range diverge(refTr[oi], tr) {
 			c.FailAt("leakage trace depends on secret values", d.Func, class, map[string]any{
-				"op": op.name, "assignment": k, "class": in.class, "reference-class": refIn[oi].class,
+				"op": op.name, "assignment": k, "class": in.Class, "reference-class": refIn[oi].Class,
 				"first-difference-at-event": d.Index, "site": d.Site, "function": d.Func, "reference-event": d.A, "this-event": d.B,
 				"trace-lengths": []int{len(refTr[oi]), len(tr)}})
 		}
